@@ -247,6 +247,26 @@ def hSolverRun : Handler := fun j => do
         return if exactEq got then none else some s!"{tag}:notEqualEval"
       else
         return if fragile || closeEq got then none else some s!"{tag}:notCloseToEval"
+  -- second evaluation on the same instances (no Flush in between): the feed-forward value of the SECOND input vector
+  let xs2 := ((fldOpt inp "xs2").bind (fun a => (arrF a).toOption)).getD []
+  let sens2 := sensFn net xs2
+  let want2 := evalOutputs net sigmaExact sens2
+  let want2V := want2.map (·.getD 0.0)
+  let fragile2 := (List.range net.nodes.length).any (fragileNode net sens2)
+  let path2Ok (tag : String) (exact : Bool) : E (Option String) := do
+    match fldOpt out tag with
+    | none => return none
+    | some g =>
+      if g == Json.null then return none
+      if (fldOpt g "err").isSome then return some s!"{tag}:error"
+      if (fldOpt g "res") != some (jB true) then return some s!"{tag}:resFalse"
+      let got ← outsOf g
+      let ex := got.length == want2V.length && (got.zip want2V).all fun p => p.1.toBits == p.2.toBits
+      let cl := got.length == want2V.length && (got.zip want2V).all fun p => relCloseS p.1 p.2
+      if exact then
+        return if ex then none else some s!"{tag}:notEqualEval(second evaluation on the same instance)"
+      else
+        return if fragile2 || cl then none else some s!"{tag}:notCloseToEval(second evaluation on the same instance)"
   let depth ← fldNat inp "depth"
   let mut specFail : Option String := none
   if !deadEnd && evalOk then
@@ -257,6 +277,11 @@ def hSolverRun : Handler := fun j => do
     let stdRecOk ← if recDepth ≥ depth then pathOk "stdRec" true else pure none
     specFail := (← pathOk "std" true) <|> stdRecOk <|> (← pathOk "fwd" false) <|> (← pathOk "rec" false)
                   <|> (← pathOk "relax" false)
+    if xs2.length == xs.length && want2.all Option.isSome then
+      let stdRec2Ok ← if recDepth ≥ depth then path2Ok "StdRec2" true else pure none
+      -- (Relax on a used instance may legitimately stop before `depth` steps when all changes are below delta: the
+      -- property's hypothesis 'at least as many steps as the longest path' is then not met, so Relax2 is not held to eval)
+      specFail := specFail <|> (← path2Ok "Std2" true) <|> stdRec2Ok <|> (← path2Ok "Fwd2" false) <|> (← path2Ok "Rec2" false)
   let nB := (net.nodes.filter fun nd => nd.kind == Kind.bias).length
   let nH := (net.nodes.filter fun nd => nd.kind == Kind.hidden).length
   let nontriv := !deadEnd && evalOk && nB ≥ 1 && nH ≥ 1 && depth ≥ 2 && wantV.any (fun v => v != 0.0)
